@@ -415,6 +415,43 @@ def verifyIds (w : MW) (gc gs : Int) (groups : List (List Nat)) (prev : List Int
 
 def allGroups (gc : Int) : List Nat := List.range gc.toNat
 
+/-- the signal already belongs to a container other than multiplexer `x` (re-attachment, D25) -/
+def insForeign (x : Nat) (se : SigE) : Bool :=
+  match se.parentMux with
+  | some p => p ≠ x
+  | none => se.parentMsg.isSome
+
+/-- `ms.parentMsg.verifyNestedSignalNames(signal)`, only for a signal that is new to an
+    attached multiplexer -/
+def insNestedOk (w : MW) (xe : SigE) (s : Nat) : Bool :=
+  match xe.parentMsg with
+  | none => true
+  | some m =>
+    if xe.mx.signals.contains s then true
+    else match w.msgs.get m with
+      | some msg => nestedNamesOk w msg s
+      | none => true
+
+/-- `signalGroupIDs[sig]` before the insertion (`prevGroupIDs`) -/
+def prevIds (xe : SigE) (s : Nat) : List Int :=
+  match xe.mx.groupIds.get s with | some l => l | none => []
+
+/-- the verification loops of `InsertSignal`: the indexes of the target groups, or the refusal -/
+def insVerify (w : MW) (xe : SigE) (gc gs : Int) (s : Nat) (sz st : Int) (gids : List Int) : Except Out (List Nat) :=
+  if gids.isEmpty then
+    match verifyFixed w gs xe.mx.groups sz st (allGroups gc) with
+    | .error o => .error o
+    | .ok () => .ok (allGroups gc)
+  else
+    match verifyIds w gc gs xe.mx.groups (prevIds xe s) sz st (compactAdj (sortInts gids)) with
+    | .error o => .error o
+    | .ok () => .ok ((compactAdj (sortInts gids)).map Int.toNat)
+
+/-- the bookkeeping of `InsertSignal`: `fixedSignals.add` / `signalGroupIDs.add(sorted prev ++ ids)` -/
+def insBook (xe : SigE) (s : Nat) (gids : List Int) (d : MuxD) : MuxD :=
+  if gids.isEmpty then { d with fixed := sAdd d.fixed s }
+  else { d with groupIds := d.groupIds.set s (sortInts (prevIds xe s ++ compactAdj (sortInts gids))) }
+
 /-- `MultiplexerSignal.InsertSignal(signal, startBit, groupIDs...)` -/
 def doMuxIns (w : MW) (x s : Nat) (st : Int) (gids : List Int) : MW × Out :=
   match w.sigs.get x with
@@ -426,40 +463,16 @@ def doMuxIns (w : MW) (x s : Nat) (st : Int) (gids : List Int) : MW × Out :=
       match w.sigs.get s with
       | none => (w, .err .nil)
       | some se =>
-        let foreign := match se.parentMux with
-          | some p => p ≠ x
-          | none => se.parentMsg.isSome
-        if foreign || selfOrAncestor w s (fuelOf w + 1) x then (w, .unsupported)
+        if insForeign x se || selfOrAncestor w s (fuelOf w + 1) x then (w, .unsupported)
         else if !verifyMuxName w xe s se.name then (w, .err .duplicated)
+        else if !insNestedOk w xe s then (w, .err .duplicated)
         else
-          let nestedOk := match xe.parentMsg with
-            | none => true
-            | some m =>
-              if xe.mx.signals.contains s then true
-              else match w.msgs.get m with
-                | some msg => nestedNamesOk w msg s
-                | none => true
-          if !nestedOk then (w, .err .duplicated)
-          else if gids.isEmpty then
-            match verifyFixed w gs xe.mx.groups (sigSize se) st (allGroups gc) with
-            | .error o => (w, o)
-            | .ok () =>
-              match insertMany w x s st (allGroups gc) with
-              | (w1, true) => (w1, .panic)
-              | (w1, false) =>
-                let w2 := updMux w1 x (fun d => { d with fixed := sAdd d.fixed s })
-                (muxAddSignal w2 x s, .ok [])
-          else
-            let ids := compactAdj (sortInts gids)
-            let prev := match xe.mx.groupIds.get s with | some l => l | none => []
-            match verifyIds w gc gs xe.mx.groups prev (sigSize se) st ids with
-            | .error o => (w, o)
-            | .ok () =>
-              match insertMany w x s st (ids.map Int.toNat) with
-              | (w1, true) => (w1, .panic)
-              | (w1, false) =>
-                let w2 := updMux w1 x (fun d => { d with groupIds := d.groupIds.set s (sortInts (prev ++ ids)) })
-                (muxAddSignal w2 x s, .ok [])
+          match insVerify w xe gc gs s (sigSize se) st gids with
+          | .error o => (w, o)
+          | .ok ks =>
+            match insertMany w x s st ks with
+            | (w1, true) => (w1, .panic)
+            | (w1, false) => (muxAddSignal (updMux w1 x (insBook xe s gids)) x s, .ok [])
 
 /-- `MultiplexerSignal.RemoveSignal(id)`; `none` = the `panic(err)` branch -/
 def muxRemove (w : MW) (x s : Nat) : Option (MW × Out) :=
@@ -717,41 +730,61 @@ def doLeafSize (w : MW) (s : Nat) (n : Int) : MW × Out :=
 
 /-! ### names -/
 
+/-- `s.parentMuxSig.verifySignalName(sigID, newName)` when the signal has a parent multiplexer -/
+def nameMuxOk (w : MW) (se : SigE) (s : Nat) (name : String) : Bool :=
+  match se.parentMux with
+  | some x => match w.sigs.get x with
+    | some xe => verifyMuxName w xe s name
+    | none => true
+  | none => true
+
+/-- `s.parentMsg.verifySignalName(newName)` when the signal has a parent message -/
+def nameMsgOk (w : MW) (se : SigE) (name : String) : Bool :=
+  match se.parentMsg with
+  | some m => match w.msgs.get m with
+    | some msg => !nmHas msg.signalNames name
+    | none => true
+  | none => true
+
+/-- the updates of an accepted `UpdateName`: message registry, multiplexer registry, name -/
+def renamed (w : MW) (s : Nat) (se : SigE) (name : String) : MW :=
+  let rn := fun (nm : Names) => nmSet (nmDel nm se.name) name s
+  let msgs1 := match se.parentMsg with
+    | some m => match w.msgs.get m with
+      | some msg => w.msgs.set m { msg with signalNames := rn msg.signalNames }
+      | none => w.msgs
+    | none => w.msgs
+  let w1 : MW := { w with msgs := msgs1 }
+  let w2 := match se.parentMux with
+    | some x => updMux w1 x (fun d => { d with signalNames := rn d.signalNames })
+    | none => w1
+  match w2.sigs.get s with
+  | some se2 => { w2 with sigs := w2.sigs.set s { se2 with name := name } }
+  | none => w2
+
 /-- `signal.UpdateName(newName)` -/
 def doSigName (w : MW) (s : Nat) (name : String) : MW × Out :=
   match w.sigs.get s with
   | none => (w, .unsupported)
   | some se =>
     if se.name = name then (w, .ok [])
-    else
-      let muxOk := match se.parentMux with
-        | some x => match w.sigs.get x with
-          | some xe => verifyMuxName w xe s name
-          | none => true
-        | none => true
-      if !muxOk then (w, .err .duplicated)
-      else
-        let msgOk := match se.parentMsg with
-          | some m => match w.msgs.get m with
-            | some msg => !nmHas msg.signalNames name
-            | none => true
-          | none => true
-        if !msgOk then (w, .err .duplicated)
-        else
-          let msgs1 := match se.parentMsg with
-            | some m => match w.msgs.get m with
-              | some msg => w.msgs.set m { msg with signalNames := nmSet (nmDel msg.signalNames se.name) name s }
-              | none => w.msgs
-            | none => w.msgs
-          let w1 : MW := { w with msgs := msgs1 }
-          let w2 := match se.parentMux with
-            | some x => updMux w1 x (fun d => { d with signalNames := nmSet (nmDel d.signalNames se.name) name s })
-            | none => w1
-          match w2.sigs.get s with
-          | some se2 => ({ w2 with sigs := w2.sigs.set s { se2 with name := name } }, .ok [])
-          | none => (w2, .ok [])
+    else if !nameMuxOk w se s name then (w, .err .duplicated)
+    else if !nameMsgOk w se name then (w, .err .duplicated)
+    else (renamed w s se name, .ok [])
 
 /-! ### messages -/
+
+/-- placement in the top-level layout (`st = none`: append): the start bit and the new slice,
+    or the refusal of `verifyBeforeAppend` / `verifyBeforeInsert` -/
+def msgPlace (w : MW) (msg : MsgE) (s : Nat) (sz : Int) : Option Int → Except LErr (Int × List Nat)
+  | none =>
+    match verifyAppend msg.cap (slotsOf w msg.layout) sz with
+    | .error e => .error e
+    | .ok () => .ok (lastEnd (slotsOf w msg.layout), msg.layout ++ [s])
+  | some st =>
+    match verifyInsert msg.cap (slotsOf w msg.layout) sz st with
+    | .error e => .error e
+    | .ok () => .ok (st, (Layout.insert (slotsOf w msg.layout) s sz st).map (·.id))
 
 /-- `Message.AppendSignal` / `Message.InsertSignal` (`st = none`: append) -/
 def doMsgAttach (w : MW) (m s : Nat) (st : Option Int) : MW × Out :=
@@ -765,23 +798,24 @@ def doMsgAttach (w : MW) (m s : Nat) (st : Option Int) : MW × Out :=
       else if nmHas msg.signalNames se.name then (w, .err .duplicated)
       else if !nestedNamesOk w msg s then (w, .err .duplicated)
       else
-        let slots := slotsOf w msg.layout
-        match st with
-        | none =>
-          match verifyAppend msg.cap slots (sigSize se) with
-          | .error e => (w, outOfLErr e)
-          | .ok () =>
-            let w1 : MW := { sigs := setRel w.sigs s (lastEnd slots),
-                             msgs := w.msgs.set m { msg with layout := msg.layout ++ [s] } }
-            if genPanics w1 (msg.layout ++ [s]) then (w1, .panic) else (msgAddSignal w1 m s, .ok [])
-        | some st =>
-          match verifyInsert msg.cap slots (sigSize se) st with
-          | .error e => (w, outOfLErr e)
-          | .ok () =>
-            let lay := (Layout.insert slots s (sigSize se) st).map (·.id)
-            let w1 : MW := { sigs := setRel w.sigs s st,
-                             msgs := w.msgs.set m { msg with layout := lay } }
-            if genPanics w1 lay then (w1, .panic) else (msgAddSignal w1 m s, .ok [])
+        match msgPlace w msg s (sigSize se) st with
+        | .error e => (w, outOfLErr e)
+        | .ok (r, lay) =>
+          let w1 : MW := { sigs := setRel w.sigs s r, msgs := w.msgs.set m { msg with layout := lay } }
+          if genPanics w1 lay then (w1, .panic) else (msgAddSignal w1 m s, .ok [])
+
+/-- the updates of `Message.RemoveSignal` for a top-level signal: `m.removeSignal(sig)`, then
+    the slice of `m.signalLayout.remove(id)` -/
+def msgDetachTop (w : MW) (m s : Nat) : MW :=
+  let w1 := msgRemoveSignal w m s
+  match w1.msgs.get m with
+  | some msg1 => { w1 with msgs := w1.msgs.set m { msg1 with layout := sDel msg1.layout s } }
+  | none => w1
+
+def layoutOf (w : MW) (m : Nat) : List Nat :=
+  match w.msgs.get m with
+  | some msg => msg.layout
+  | none => []
 
 /-- `Message.RemoveSignal(id)`: a nested signal is removed through its multiplexer -/
 def doMsgRm (w : MW) (m s : Nat) : MW × Out :=
@@ -795,12 +829,8 @@ def doMsgRm (w : MW) (m s : Nat) : MW × Out :=
         match se.parentMux with
         | some x => doMuxRm w x s
         | none =>
-          let w1 := msgRemoveSignal w m s
-          match w1.msgs.get m with
-          | some msg1 =>
-            let w2 : MW := { w1 with msgs := w1.msgs.set m { msg1 with layout := sDel msg1.layout s } }
-            if genPanics w2 (sDel msg1.layout s) then (w2, .panic) else (w2, .ok [])
-          | none => (w1, .ok [])
+          let w2 := msgDetachTop w m s
+          if genPanics w2 (layoutOf w2 m) then (w2, .panic) else (w2, .ok [])
 
 /-- `Message.RemoveAllSignals()` -/
 def doMsgClear (w : MW) (m : Nat) : MW × Out :=
